@@ -137,6 +137,37 @@ class TermGen:
         return n
 
 
+APIS = ["sync", "async:render", "async:render_async", "async:generate_async"]
+
+
+async def _af(v):
+    """an async data function: awaiting it gives its argument back"""
+    return v
+
+
+def render_api(template, api, kw):
+    """render through one of the entry points; the async ones need Environment(enable_async=True)"""
+    import asyncio
+
+    if api in ("sync", "async:render"):
+        return template.render(**kw)
+    if api == "async:render_async":
+        return asyncio.run(template.render_async(**kw))
+
+    async def collect():
+        return "".join([piece async for piece in template.generate_async(**kw)])
+
+    return asyncio.run(collect())
+
+
+def api_env_kw(api):
+    return {"enable_async": True} if api != "sync" else {}
+
+
+def api_context(api):
+    return {"af": _af} if api != "sync" else {}
+
+
 def quote(s):
     if '"' not in s:
         return '"' + s + '"'
@@ -146,10 +177,12 @@ def quote(s):
 
 
 class Realiser:
-    def __init__(self, rng, ndata, suffix="", separate=True, inherit=True, wrap=None):
+    def __init__(self, rng, ndata, suffix="", separate=True, inherit=True, wrap=None, async_fn=False):
         """`separate`: may put parts into other templates (import / include); `wrap`: (open, close) text put around every
         template body (an `{% autoescape %}` block); imports are not used then (macros inside a block are not exported)"""
         self.rng, self.suffix, self.separate, self.inherit, self.wrap = rng, suffix, separate, inherit, wrap
+        # async environments only: a name may be read through `af(name)`, an async data function the generated code awaits
+        self.async_fn = async_fn
         self.k = 0
         self.templates: dict[str, str] = {}
         self.used: dict[str, int] = {}
@@ -186,6 +219,9 @@ class Realiser:
         if k == "lit":
             return "", quote(t[1])
         if k == "var":
+            if self.async_fn and self.rng.random() < 0.3:
+                self.use("var:awaited")
+                return "", f"af({scope[t[1]]})"
             return "", scope[t[1]]
         if k == "cat":
             pa, a = self.expr(t[1], scope)
@@ -220,6 +256,9 @@ class Realiser:
         self.use("blk:" + way)
         names = list(dict.fromkeys(scope))
         params = ", ".join(names)
+        if self.async_fn and way in ("import", "from"):
+            names = names + ["af"]          # an imported macro does not see the context: pass the async function along
+            params = ", ".join(names)
         if way == "set":
             v = self.fresh("v")
             return "{% set " + v + " %}" + self.node(n, scope) + "{% endset %}", v
